@@ -50,7 +50,16 @@ static void bounds_case(void) {
   if (chance(5)) A = P_add(A, P_var(2, 3));                             /* cubic */
   if (flip) A = P_scale(A, -1);
   int cond = rnd(6), neg = chance(30);
+  /* half of the inferences re-use an interval assignment that an earlier inference filled for all four variables and that was
+     emptied by lp_interval_assignment_reset: what was written for variables that do not occur now must be gone */
   lp_interval_assignment_t* IM = lp_interval_assignment_new(hp_db);
+  if (chance(50)) {
+    lp_polynomial_t* pre = P_const(-(long)(1 + rnd(20)));
+    for (int k = 0; k < 4; ++k) pre = P_add(pre, P_scale(P_var(k, 2), 1 + rnd(3)));
+    (void)lp_polynomial_constraint_infer_bounds(pre, LP_SGN_LE_0, 0, IM);
+    lp_polynomial_delete(pre);
+    lp_interval_assignment_reset(IM);
+  }
   sb_begin("inf", "bounds"); sb_sp(); sb_poly(A); sb_sp(); sb_long(cond); sb_sp(); sb_long(neg); sb_arrow();
   int rc = lp_polynomial_constraint_infer_bounds(A, (lp_sign_condition_t)cond, neg, IM);
   sb_sp(); sb_long(rc);
